@@ -157,6 +157,31 @@ type travEvent struct {
 	Size   []int   `json:"size"` // witnesses: subtree sizes (from the harness's parent table) ...
 	Pos    []int   `json:"pos"`  // ... and where each node was seen in pre (0: never)
 	Ppos   []int   `json:"ppos"` // ... and in post
+	// re-entrancy (small trees): one iter.Seq value iterated while another pass over the same value is in progress
+	Nested bool  `json:"nested"`
+	NPre   []int `json:"npre"`   // outer PreOrder pass, a complete inner pass over the same value at every step
+	NPost  []int `json:"npost"`  // the same for PostOrder
+	NInner []int `json:"ninner"` // the inner PreOrder pass made at the last outer step
+}
+
+// nestedWalk iterates seq and, at every step, runs a complete inner pass over the same seq value.
+func (t *travRealTree) nestedWalk(seq func(func(*newick.Node) bool)) (outer, lastInner []int) {
+	limit := 2*(len(t.nodes)-1) + 8
+	outer = []int{}
+	lastInner = []int{}
+	catch(func() {
+		seq(func(n *newick.Node) bool {
+			outer = append(outer, t.id[n])
+			inner := []int{}
+			seq(func(m *newick.Node) bool {
+				inner = append(inner, t.id[m])
+				return len(inner) < limit
+			})
+			lastInner = inner
+			return len(outer) < limit
+		})
+	})
+	return
 }
 
 // travGen returns the parent table of session sid in creation order (parent[c] < c, parent[1] = 0),
@@ -394,6 +419,12 @@ func traverseDrive(args []string) error {
 		ev.Kids = t.encode()
 		ev.Pre = t.walk(true)
 		ev.Post = t.walk(false)
+		ev.NPre, ev.NPost, ev.NInner = []int{}, []int{}, []int{}
+		if n <= 40 {
+			ev.Nested = true
+			ev.NPre, ev.NInner = t.nestedWalk(t.nodes[1].PreOrder())
+			ev.NPost, _ = t.nestedWalk(t.nodes[1].PostOrder())
+		}
 		ev.After = t.encode()
 		// subtree sizes from the harness's own parent table: children were created after their parents
 		size := make([]int, n+1)
